@@ -5,7 +5,7 @@
 package state
 
 //@ func (*State).SetHeightAndResetView
-//@   props C13
+//@   props C13 C10
 //@   modifies state.State.height, state.State.view
 //@   ensures [ok] result1 == nil ==> s.height == newHeight && newHeight > old(s.height) && s.view == 0
 //@   ensures [fail] result1 != nil ==> s.height == old(s.height) && s.view == old(s.view) && newHeight <= old(s.height)
@@ -15,7 +15,7 @@ package state
 //@   ensures [reset] s.height > old(s.height) ==> s.view == 0
 
 //@ func (*State).SetView
-//@   props C13
+//@   props C13 C10
 //@   modifies state.State.view
 //@   ensures [ok] result1 == nil ==> s.view == newView && newView >= old(s.view) && s.height == old(s.height)
 //@   ensures [fail] result1 != nil ==> s.height == old(s.height) && s.view == old(s.view) && old(s.view) > newView
@@ -24,15 +24,15 @@ package state
 //@   ensures [lexmono] s.height == old(s.height) && s.view >= old(s.view)
 
 //@ func (*State).Height
-//@   props C13
+//@   props C13 C10
 //@   ensures [value] result == s.height && s.height == old(s.height) && s.view == old(s.view)
 
 //@ func (*State).View
-//@   props C13
+//@   props C13 C10
 //@   ensures [value] result == s.view && s.height == old(s.height) && s.view == old(s.view)
 
 //@ func (*State).HeightView
-//@   props C13
+//@   props C13 C10
 //@   ensures [snapshot] result != nil && result.height == s.height && result.view == s.view
 //@   ensures [frame] s.height == old(s.height) && s.view == old(s.view)
 
